@@ -312,7 +312,7 @@ def gen_index(rng, n, stats, allow_bad=True, arg_size=None):
             return {'t': 'int', 'i': rng.choice([n, -n - 1, n + 3, -n - 4])}
         return {'t': 'int', 'i': rng.choice([0, n - 1, -1, -n, rng.randint(-n, n - 1)])}
     if k == 'slice':
-        step = rng.choice([0, -1, -2]) if bad else rng.choice([None, None, None, 1, 2, 3])
+        step = rng.choice([0, -1, -2]) if bad else rng.choice([None, None, None, 1, 2, 3, 5, max(n, 2), n + 3])
         return {'t': 'slice', 'a': rnd_int_bound(rng, n), 'b': rnd_int_bound(rng, n), 's': step,
                 'via': rng.choice(['getitem', 'index_select'])}
     if k == 'fslice':
@@ -331,7 +331,8 @@ def gen_index(rng, n, stats, allow_bad=True, arg_size=None):
         b = one(which in (1, 2)) if rng.random() < .85 else None
         if not isinstance(a, dict) and not isinstance(b, dict):
             b = one(True)
-        step = rng.choice([0, -1]) if bad else rng.choice([None, None, None, None, 1, 2])
+        # the three-argument form dataset[a:b:c] - every kind of bound (None / int / float) with every kind of step
+        step = rng.choice([0, -1, -2]) if bad else rng.choice([None, None, None, 1, 1, 2, 2, 3, 5, max(n // 2, 2), n + 1])
         return {'t': 'slice', 'a': a, 'b': b, 's': step, 'via': rng.choice(['getitem', 'getitem', 'index_select'])}
     if k in ('list', 'tensor'):
         ln = rng.choice([0, 1, 2, 3, 4, 6, n]) if arg_size is None else arg_size
@@ -667,9 +668,40 @@ def gen_ratio(rng):
     return list(rng.random().as_integer_ratio())
 
 
+def gen_decimal_pair(rng):
+    """(train, val) written as decimal literals on a 0.1 / 0.05 / 0.01 / 0.001 grid whose DECIMAL sum is exactly 1 (the
+    pairs a user types: 0.7 / 0.3, 0.85 / 0.15), or misses 1 by one grid step on either side.  The doubles the code
+    receives are those of the literals (k / q with q a power of ten is correctly rounded, i.e. equals float('0.k'))"""
+    q = rng.choice([10, 10, 20, 100, 100, 1000])
+    k = rng.randint(1, q - 1)
+    d = rng.choice([0, 0, 0, 0, 1, -1])
+    j = q - k + d
+    if j <= 0:
+        j = q - k
+    return [k, q], [j, q]
+
+
+def decimal_text(r):
+    """a ratio [p, q] as the decimal literal a user would type (q a power of ten or 20)"""
+    from decimal import Decimal
+    return str(Decimal(r[0]) / Decimal(r[1]))
+
+
 def gen_split_case(rng, stats, nmax, level=0):
     from harness import stress
     big = rng.random() < (.04, .03, .01)[min(level, 2)]
+    if rng.random() < .12:
+        # decimal literals summing to exactly 1 (or missing it by a grid step): with a test split they must be rejected,
+        # without one accepted - judged in exact arithmetic; a draw is skipped only when the float evaluation of the
+        # documented conditions (train + val < 1, train + val == 1, floor(n * ratio)) disagrees with the exact one
+        for _ in range(50):
+            n = min(rng.choice([0, 1, 2, 3, 5, 7, 10, 10, 15, 20, 33, 100, rng.randint(0, nmax)]), nmax)
+            rt, rv = gen_decimal_pair(rng)
+            it = rng.random() < .7
+            if split_float_ok(n, rt, rv, it):
+                return {'kind': 'gen', 'n': n, 'seed': rng.randrange(2 ** 32), 'rt': rt, 'rv': rv, 'it': it,
+                        'prior': [rng.randrange(2 ** 32), rng.randrange(2 ** 32)], 'burn': rng.randrange(5), 'fam': 'decimal-pair'}
+            stats['float-boundary-skipped'] = stats.get('float-boundary-skipped', 0) + 1
     while True:
         n = rng.choice([0, 1, 2, 3, 5, 7, 10, 10, 20, 33, 100, rng.randint(0, nmax), rng.randint(0, nmax)])
         n = min(n, nmax)
